@@ -253,6 +253,7 @@ func (k Keeper) LiquidateBorrows(ctx sdk.Context, offsetCounterId uint64) error 
 		}
 	}
 	liquidationOffsetHolder.CurrentOffset = uint64(end)
+	liquidationOffsetHolder.AppId = offsetCounterId
 	k.SetLiquidationOffsetHolder(ctx, types.VaultLiquidationsOffsetPrefix, liquidationOffsetHolder)
 
 	return nil
